@@ -82,3 +82,12 @@ mod tests {
         assert_eq!(text, expected_str);
     }
 }
+
+#[cfg(feature = "verif-hooks")]
+impl Utf8Accum {
+    /// Verification hook: octets collected so far and number of octets still expected
+    #[doc(hidden)]
+    pub fn __verif_state(&self) -> ([u8; 4], u8, u8) {
+        (self.buffer, self.partial, self.expected)
+    }
+}
